@@ -413,7 +413,8 @@ class Assembler:
 
                 if "statement" in line and not consumed:
                     stmt = line["statement"]
-                    size = self._get_statement_size(stmt, source_line_num)
+                    # Keyed by statement index: several statements may share a source line.
+                    size = self._get_statement_size(stmt, i)
                     self.section_pointers[current_section] += size
             except Exception as e:
                 raise AssemblerError(
@@ -449,7 +450,7 @@ class Assembler:
             if "statement" in line and not consumed:
                 stmt = line["statement"]
                 try:
-                    encoded_bytes = self._encode_statement(stmt, source_line_num)
+                    encoded_bytes = self._encode_statement(stmt, i)
                     if encoded_bytes:
                         if current_section == "bss":
                             # .bss section only reserves space, no data in file
